@@ -31,7 +31,8 @@ class Case:
         self.prec = prec; self.rnd = rnd; self.rounded = rounded; self.desc = desc; self.ret_mpf = ret_mpf
 
     def replay(self):
-        return {"fn": self.fn, "args_hex": [hexz(a) for a in self.margs], "prec": self.prec, "rnd": self.rnd}
+        return {"fn": self.fn, "args_hex": [hexz(a) for a in self.margs] if self.margs is not None else None,
+                "desc": small(self.desc) if self.margs is None else None, "prec": self.prec, "rnd": self.rnd}
 
 
 def r2i(r):
